@@ -300,6 +300,14 @@ func c01Tombstones(p *Prog, r *Report) {
 			return
 		}
 		appends := f.Match(func(n *GNode) bool {
+			// the key is listed: appended, or stored at the next free position of a slice sized in advance
+			if as, ok := n.Ast.(*ast.AssignStmt); ok && len(as.Rhs) == 1 && len(as.Lhs) == 1 {
+				if _, isIx := ast.Unparen(as.Lhs[0]).(*ast.IndexExpr); isIx {
+					if sel, ok := ast.Unparen(as.Rhs[0]).(*ast.SelectorExpr); ok && sel.Sel.Name == "Key" {
+						return true
+					}
+				}
+			}
 			if as, ok := n.Ast.(*ast.AssignStmt); ok && len(as.Rhs) == 1 {
 				if c, ok := ast.Unparen(as.Rhs[0]).(*ast.CallExpr); ok {
 					if id, ok := c.Fun.(*ast.Ident); ok && id.Name == "append" {
